@@ -141,6 +141,22 @@ func runC09(c *fw.Case) {
 		return true
 	}
 
+	// an OLDER table with other values for the same keys: the damaged table is also read as the newer member of a stack —
+	// damage must surface as an error there too, never as the older table's (plausible-looking, stale) value
+	odir := filepath.Join(c.Dir, "older")
+	_ = os.MkdirAll(odir, 0755)
+	var older sstables.SSTableReaderI
+	if ow, err := sstables.NewSSTableStreamWriter(sstables.WriteBasePath(odir), sstables.WithKeyComparator(skiplist.BytesComparator{})); err == nil && ow.Open() == nil {
+		for i, e := range kvs {
+			_ = ow.WriteNext(e.k, []byte(fmt.Sprintf("older-value-%d", i)))
+		}
+		if ow.Close() == nil {
+			older, _ = sstables.NewSSTableReader(sstables.ReadBasePath(odir), sstables.ReadWithKeyComparator(skiplist.BytesComparator{}))
+		}
+	}
+	if older != nil {
+		defer older.Close()
+	}
 	copyNo := 0
 	evalCopy := func(kind string, d []byte, what string) {
 		curKind = kind
@@ -216,6 +232,20 @@ func runC09(c *fw.Case) {
 				}
 				if !getAll("Get", 2) {
 					return
+				}
+				if older != nil && copyNo%3 == 0 {
+					super := sstables.NewSuperSSTableReader([]sstables.SSTableReaderI{older, rd}, skiplist.BytesComparator{})
+					for i, e := range kvs {
+						got, err := super.Get(e.k)
+						if err != nil {
+							continue
+						}
+						c.Obs("stacked_gets_over_a_damaged_newer_table", 1)
+						if !acceptable(i, got) {
+							bad("stacked-Get", i, got)
+							return
+						}
+					}
 				}
 				defer func() {
 					if !c.Violated() {
